@@ -199,6 +199,15 @@ impl Scenario for Chunk {
         if p.doc.len() >= 2 && p.doc.len() <= 10 && rng.chance(1, 3) {
             p.enumerate = true; // all 2^(n-1) cut sets
             p.stream.cuts.clear();
+        } else if p.reader == ReaderKind::Plain && rng.chance(1, 8) {
+            // call history with raw reads through Reader::stream() between events
+            for _ in 0..rng.range(2, 14) {
+                p.ops.push(if rng.chance(1, 3) {
+                    Op::Raw { n: *rng.pick(&[1u16, 2, 3, 5, 9, 16, 40, 300]), via: rng.below(3) as u8 }
+                } else {
+                    Op::Read
+                });
+            }
         }
         p
     }
@@ -208,6 +217,23 @@ impl Scenario for Chunk {
         let tag = plan.run ^ 0x5eed;
         let mut slice_st = Stream::slice();
         slice_st.eof_at = plan.stream.eof_at;
+        if !plan.ops.is_empty() {
+            // scripted history (events and raw reads through stream()): same script on
+            // the slice reader and on the streamed reader
+            let reference = run_ops_on(plan, &shared, &slice_st);
+            let got = run_ops_on(plan, &shared, &plan.stream);
+            st.executions += 2;
+            count_faults(&got, st);
+            st.bump(&format!("source.{}", plan.stream.kind.name()));
+            st.bump("chunk.with_raw_stream_reads");
+            classify_cuts(&plan.doc, &plan.stream.cuts, &mut st.hits);
+            monitor_violations(&reference, plan, "slice run", &mut out);
+            monitor_violations(&got, plan, "streamed run", &mut out);
+            compare(plan, &plan.stream, &reference, &got, &mut out);
+            st.note_distinct(plan.hash64(), cut_inside_markup(&plan.doc, &plan.stream.cuts) || got.fired_pending > 0);
+            st.fold_digest(plan.run, reference.hash().wrapping_mul(31).wrapping_add(got.hash()));
+            return out;
+        }
         let reference = run_reads(&plan.doc, &shared, &slice_st, plan.reader, plan.cfg, tag, false);
         st.executions += 1;
         monitor_violations(&reference, plan, "slice run", &mut out);
@@ -301,6 +327,7 @@ impl Scenario for Soup {
                     0 | 1 => Op::Skip,
                     2 if p.stream.kind == SourceKind::Slice => Op::ReadText,
                     3 => Op::Flip { bit: 1 << rng.below(7), on: rng.bool() },
+                    4 if rng.bool() => Op::Raw { n: *rng.pick(&[1u16, 2, 3, 5, 16, 40, 300]), via: rng.below(3) as u8 },
                     _ => Op::Read,
                 });
             }
@@ -366,17 +393,21 @@ impl Scenario for Soup {
 /// caller script of reads, skips, read_text and configuration flips on arbitrary
 /// input; only the C03 monitors apply
 fn run_ops_monitored(plan: &Plan, shared: &Rc<Vec<u8>>) -> RunRec {
+    run_ops_on(plan, shared, &plan.stream)
+}
+
+fn run_ops_on(plan: &Plan, shared: &Rc<Vec<u8>>, st: &Stream) -> RunRec {
     use crate::core::guard;
     use crate::rd::{Out, Rd, Step};
     use crate::source::new_log;
     use quick_xml::events::Event;
-    let st = &plan.stream;
     let doc = &plan.doc;
     let log = new_log(refill_budget(doc.len(), st) * 2);
     let mut steps: Vec<Step> = vec![];
     let mut monitor: Vec<(String, String)> = vec![];
     let mut ticks = 0;
     let eff_len = st.eof_at.map(|e| (e as usize).min(doc.len())).unwrap_or(doc.len());
+    let has_raw = plan.ops.iter().any(|o| matches!(o, Op::Raw { .. }));
     let res = guard(|| {
         let mut rd = Rd::new(doc, shared, st, plan.reader, plan.cfg, &log, plan.run);
         let mut cfg = plan.cfg;
@@ -402,6 +433,17 @@ fn run_ops_monitored(plan: &Plan, shared: &Rc<Vec<u8>>) -> RunRec {
                     Some(Err(e)) => Out::from_err(&e),
                     _ => Out::Ev(Event::Eof),
                 },
+                Op::Raw { n, via } => {
+                    // never ask for more than is certainly left: what a short read_exact
+                    // consumes is not specified
+                    let avail = eff_len.saturating_sub(rd.pos() as usize + 1);
+                    let n = (*n as usize).min(avail);
+                    match if n == 0 { None } else { rd.raw(n, *via) } {
+                        Some(Ok(b)) => Out::Raw(b),
+                        Some(Err(e)) => Out::Err { dbg: format!("raw read: {:?}", e.kind()), class: crate::rd::ErrClass::Other },
+                        None => Out::from(rd.read()),
+                    }
+                }
                 _ => {
                     let r = rd.read();
                     if let Ok(e) = &r {
@@ -426,7 +468,13 @@ fn run_ops_monitored(plan: &Plan, shared: &Rc<Vec<u8>>) -> RunRec {
             if out.is_err() && epos > pos {
                 monitor.push(("error-position-beyond-position".into(), format!("op {} ({:?}): error_position {} > buffer_position {}", i, op, epos, pos)));
             }
+            let stop = has_raw && (out.is_err() || out.is_eof());
             steps.push(Step { out, pos, epos, enc: rd.encoding_name() });
+            if stop {
+                // how much of the source a failed or finished reader has consumed is not
+                // part of any property: raw reads after that point compare nothing meaningful
+                break;
+            }
         }
         ticks = rd.timers.now();
     });
